@@ -384,6 +384,146 @@ theorem lexAux_good (st : LexState) (input : Str) : Good (lexAux st input) := by
 
 theorem lex_good (s : Str) : Good (lex s) := lexAux_good _ _
 
+/-! ### an ERROR node holds at most one token and nothing else -/
+
+mutual
+/-- every ERROR node of the tree has at most one child, and that child is a token
+    (the unexpected token that was bumped; none at the end of the input) -/
+def errShape : DNode → Bool
+  | .tok _ _ => true
+  | .node k cs =>
+    (decide (k ≠ .ERROR) || (decide (cs.length ≤ 1) && cs.all fun c => !c.isNode)) && errShapeList cs
+def errShapeList : List DNode → Bool
+  | [] => true
+  | n :: ns => errShape n && errShapeList ns
+end
+
+@[simp] theorem errShapeList_nil : errShapeList [] = true := by simp [errShapeList]
+@[simp] theorem errShapeList_cons (n ns) :
+    errShapeList (n :: ns) = (errShape n && errShapeList ns) := by simp [errShapeList]
+@[simp] theorem errShape_tok (k t) : errShape (.tok k t) = true := by simp [errShape]
+@[simp] theorem errShape_node (k cs) : errShape (.node k cs) =
+    ((decide (k ≠ .ERROR) || (decide (cs.length ≤ 1) && cs.all fun c => !c.isNode)) && errShapeList cs) := by
+  simp [errShape]
+@[simp] theorem errShapeList_append (x y) :
+    errShapeList (x ++ y) = (errShapeList x && errShapeList y) := by
+  induction x with
+  | nil => simp
+  | cons n ns ih => simp [ih, Bool.and_assoc]
+
+theorem skipWs_errShape (ts) : errShapeList (skipWs ts).1 = true := by
+  induction ts with
+  | nil => simp [skipWs]
+  | cons t ts ih => unfold skipWs; split <;> simp [ih]
+
+theorem bumpVals_errShape (ts) : errShapeList (bumpVals ts).1 = true := by
+  induction ts with
+  | nil => simp [bumpVals]
+  | cons t ts ih => unfold bumpVals; split <;> simp [ih]
+
+theorem untilNl_errShape (ts) : errShapeList (untilNl ts).1 = true := by
+  induction ts with
+  | nil => simp [untilNl]
+  | cons t ts ih => unfold untilNl; split <;> simp [ih]
+
+theorem nlNodes_errShape (t : Tok) : errShapeList (nlNodes t) = true := by
+  unfold nlNodes; split <;> simp [isNode]
+
+theorem entryLines_errShape (ts) : errShapeList (entryLines ts).nodes = true := by
+  fun_induction entryLines ts
+  next x h => simp [bumpVals_errShape]
+  next x t h => simp [bumpVals_errShape, nlNodes_errShape]
+  next x t i r3 h hi ih => simp [bumpVals_errShape, skipWs_errShape, nlNodes_errShape, ih]
+  next x t i r3 h hi => simp [bumpVals_errShape, nlNodes_errShape]
+
+theorem commentLoop_errShape : ∀ ts, errShapeList (commentLoop ts).nodes = true
+  | [] => by simp [commentLoop]
+  | [t] => by simp only [commentLoop]; split <;> simp
+  | t :: n :: ts => by
+    simp only [commentLoop]; split
+    · simp [nlNodes_errShape, commentLoop_errShape ts]
+    · simp
+
+theorem keyPart_errShape (ts) : errShapeList (keyPart ts).nodes = true := by
+  cases ts with
+  | nil => simp [keyPart]
+  | cons t ts => simp only [keyPart]; split <;> simp [skipWs_errShape, isNode]
+
+theorem colonPart_errShape (ts) : errShapeList (colonPart ts).nodes = true := by
+  cases ts with
+  | nil => simp [colonPart]
+  | cons t ts => simp only [colonPart]; split <;> simp [skipWs_errShape, isNode]
+
+theorem entryBody_errShape (ts) : errShapeList (entryBody ts).nodes = true := by
+  simp [entryBody, keyPart_errShape, colonPart_errShape, entryLines_errShape]
+
+theorem parseEntry_errShape (ts) : errShapeList (parseEntry ts).nodes = true := by
+  simp only [parseEntry]
+  split
+  · exact commentLoop_errShape ts
+  · simp [commentLoop_errShape, entryBody_errShape]
+
+theorem paraLoop_errShape (ts) : errShapeList (paraLoop ts).nodes = true := by
+  fun_induction paraLoop ts
+  case case1 => simp
+  case case2 => simp
+  case case3 t ts' hn e r ih => simp [ih, e, r, parseEntry_errShape]
+
+theorem skipWsNl_errShape (ts) : errShapeList (skipWsNl ts).1 = true := by
+  fun_induction skipWsNl ts
+  case case1 => simp
+  case case2 t ts' hb b r ih => simp [ih, b, r, untilNl_errShape]
+  case case3 => simp
+
+theorem rootLoop_errShape (ts) : errShapeList (rootLoop ts).nodes = true := by
+  fun_induction rootLoop ts
+  case case1 => simp
+  case case2 t0 ts0 s h => simp [s, skipWsNl_errShape]
+  case case3 t0 ts0 s t r h p q ih => simp [s, p, q, skipWsNl_errShape, paraLoop_errShape, ih]
+
+theorem parseTokens_errShape (ts : List Tok) : errShape (parseTokens ts).tree = true := by
+  simp [parseTokens, rootLoop_errShape]
+
+/-! ### at most one ERROR token per ERROR node -/
+
+def isErrTok (t : Tok) : Bool := decide (t.1 = .ERROR)
+
+mutual
+theorem errToks_le : ∀ n : DNode, wrapped false n = true → errShape n = true →
+    n.leaves.countP isErrTok ≤ errNodes n
+  | .tok k t => by
+    intro hw _
+    have : k ≠ .ERROR := by simpa using hw
+    simp [isErrTok, this]
+  | .node k cs => by
+    intro hw hs
+    simp only [wrapped_node] at hw
+    simp only [errShape_node, Bool.and_eq_true, Bool.or_eq_true, decide_eq_true_eq] at hs
+    by_cases hk : k = .ERROR
+    · subst hk
+      have h1 := hs.1.resolve_left (by simp)
+      match cs, h1 with
+      | [], _ => simp
+      | [.tok k' t], _ => simp [List.countP_cons]; split <;> omega
+      | [.node _ _], h1 => simp [isNode] at h1
+      | _ :: _ :: _, h1 => simp at h1
+    · simp only [hk, decide_false] at hw
+      have := errToks_leList cs hw hs.2
+      simp only [leaves_node, errNodes_node, hk, ↓reduceIte]
+      omega
+theorem errToks_leList : ∀ ns : List DNode, wrappedList false ns = true → errShapeList ns = true →
+    (leavesList ns).countP isErrTok ≤ errNodesList ns
+  | [] => by simp
+  | n :: ns => by
+    intro hw hs
+    simp only [wrappedList_cons, Bool.and_eq_true] at hw
+    simp only [errShapeList_cons, Bool.and_eq_true] at hs
+    have h1 := errToks_le n hw.1 hs.1
+    have h2 := errToks_leList ns hw.2 hs.2
+    simp only [leavesList_cons, List.countP_append, errNodesList_cons]
+    omega
+end
+
 /-! ### every message has one of three forms -/
 
 /-- the messages the parser can push (lossless.rs:152/205, 175, 186) -/
